@@ -16,3 +16,18 @@ package types
 
 //@ func (self Authorizer) RequireAuthority(signer) (err)
 //@   ensures[C10] (err == nil) == (signer == authOfIface(self))
+
+// ---------------------------------------------------------------------------------------------
+// Controllers behind the routers (interface-level contracts: every registered controller is
+// verified against them, and the components are verified against them only)
+// ---------------------------------------------------------------------------------------------
+
+//@ func (self ActionController) HandlePacket(ctx, packet) (err)
+//@   requires[base] packet != nil && packet.Action != nil && packet.TransferAttributes != nil && taOK(packet.TransferAttributes)
+//@   counts actcalls
+//@   modifies bank, events, packet.TransferAttributes.destinationCoin
+
+//@ func (self ForwardingController) HandlePacket(ctx, packet) (err)
+//@   requires[base] packet != nil && packet.Forwarding != nil && packet.TransferAttributes != nil && taOK(packet.TransferAttributes)
+//@   counts fwdcalls
+//@   modifies bank, events
